@@ -36,6 +36,13 @@ def run(chk, tier, seed, replay):
                        "derived scales (norm ratios, square roots) whose product with the shape is exactly integral / half-integral are not judged"]
     if replay:
         case = json.load(open(replay))["case"]
+        if "emitted" in case:
+            from ..adapters import images
+
+            chk.case("replay"); chk.sample(case["emitted"]["case"])
+            for w, detail, kind in images.run_case(case["emitted"]):
+                chk.mismatch(case, {"what": w, **detail}, kind=kind, what=w)
+            return
         chk.case("replay"); chk.sample([(e["op"], e["args"]) for e in case["beh"]["hist"]])
         bad = ad.replay(case["beh"])
         if bad:
@@ -61,3 +68,8 @@ def run(chk, tier, seed, replay):
                     chk.sample([{"op": e["op"], "args": e["args"], "shape": e["exp"].get("shape")} for e in b["hist"]])
                 if bad:
                     chk.mismatch({"beh": b}, bad, what=bad["what"])
+        # the n-D members of the family on 3-D images (per-axis maps; ImageCases.tla, kind geom3d)
+        from ..adapters import images
+        from ..core import run_cases
+
+        run_cases(chk, "geom3d", "MC_ImageCases", "MC_ImageCases_c01.cfg", s, images.run_case)
